@@ -179,6 +179,10 @@ def wire_programs():
         out.append([('OR', leaf(a), leaf(b))])
         out.append([leaf(a), leaf(b)])
         out.append([('SET', [leaf(a), ('NOT', leaf(b))])])
+    # search-key = "NOT" SP search-key: negations nest (NOT NOT k is k)
+    for name in ('SEEN', 'SEQR', 'UID1'):
+        out.append([('NOT', ('NOT', leaf(name)))])
+        out.append([('NOT', ('NOT', ('NOT', leaf(name))))])
     return out
 
 
